@@ -244,6 +244,15 @@ size_t varintFloatEncode(uint8_t *output, const double *values,
             } else {
                 /* Reduced precision: truncate from 53 bits to target */
                 mantissas[i] = truncateMantissa(mantissas[i], 53, mant_bits);
+
+                /* Rounding can carry out of the top bit (1.111..1 rounds up
+                 * to 10.000..0), which no longer fits in mant_bits bits.
+                 * Renormalize into the next binade; an exponent beyond the
+                 * largest finite one decodes as infinity. */
+                if (mantissas[i] >> mant_bits) {
+                    mantissas[i] >>= 1;
+                    exponents[i]++;
+                }
             }
         }
     }
